@@ -28,8 +28,18 @@ package ice
 //@   site call Get#1 assert only-stun-binding-reaches-the-username-lookup: msg.Type.Method == stun.MethodBinding && arg1 == stun.AttrUsername
 //@   site call Split#1 assert splits-the-username-at-the-colon: arg1 == ":"
 //@   site call Split#1 ghost parts0 := result[0]
+//@   ghostvar localOf int = 0
+//@   site call LocalAddr#6 assert local-address-of-the-accepted-connection: recv == conn
+//@   site call LocalAddr#6 ghost localOf := result.payload
+//@   site call getConn#1 assert local-ip-is-the-accepted-connections: localOf == localAddr && localAddr != nil
 //@   site call getConn#1 assert routed-by-ufrag-before-colon-family-and-local-ip: arg1 == parts0 && arg1 == ufrag && arg2 == isIPv6 && arg3 == localAddr.IP
 //@   site call createConn#1 assert unknown-ufrag-gets-a-provisional-conn: arg1 == ufrag && arg2 == isIPv6 && arg3 == localAddr.IP && arg4 == true
 //@   site call AddConn#1 assert attaches-this-conn-with-its-first-frame: arg0 == packetConn && arg1 == conn && arg2.base == buf.base && len(arg2) == n && closedCount == 0
 //@   site call AddConn#1 ghost attached := result == nil
 //@   ensures closed-once-or-attached: (closedCount == 1 && !attached) || (closedCount == 0 && attached)
+
+// A provisional connection (created for an unknown ufrag by an incoming TCP
+// connection) expires unless the user claims it: only GetConnByUfrag clears the
+// alive timer; further incoming connections never do.
+//@ enumerate C15 calls ice.(*tcpPacketConn).ClearAliveTimer in (*TCPMuxDefault).GetConnByUfrag
+//@ enumerate C15 stores ice.tcpPacketConn.aliveTimer in newTCPPacketConn
